@@ -56,6 +56,9 @@ def run(ctx):
     spaces.localised_inherit(ctx)
     spaces.rwg_sign_rule(ctx)
     geometry(ctx)
+    from .. import intwidth
+
+    intwidth.int_narrowing(ctx)  # index / offset arrays must not wrap
 
 
 def geometry(ctx):
